@@ -134,7 +134,22 @@ class _Alias:
         return getattr(self._c, n)
 
 
+def rule_e(ctx):
+    F = ctx.F
+    rid = "C18.e"
+    ctx.rule(rid, "progress of the writer-side wait: every pass samples every reader slot (whole-array traversal, not under a short-circuiting "
+                  "combinator), so a slot that was idle at some instant after the swap is eventually recorded", floor=4)
+    from .C01 import rule_e as c01e, rule_b as c01b
+    R = Roles(F)
+    for T in halflocks(F):
+        readers = [m for m in hl_methods(F, T) if adt_constructions(m, RG)]
+        if len(readers) != 1:
+            raise AnchorLost("read() of HalfLock<%s>" % T)
+        c01e(_Alias(ctx, rid), R, T, readers[0])
+
+
 def run(ctx):
+    ctx.guarded("C18.e", rule_e)
     ctx.guarded("C18.a", rule_a)
     ctx.guarded("C18.b", rule_b)
     ctx.guarded("C18.c", rule_c)
